@@ -399,6 +399,9 @@ def run(res, tier, validate, report):
     invs = C.inventory([os.path.join(dd, c["id"] + ".rs") for c in allcases])
     for name, (fam, cases) in sorted(per.items()):
         base = None
+        # orders of the same shape first (define-before-use orders are compared among themselves, so that a
+        # difference there is not attributed to the recorded forward-declaration finding), shapes in a fixed order
+        cases = sorted(cases, key=lambda c: (order_shape(fam, c["order"]), c["id"]))
         for c in cases:
             o = out.get(c["id"], {})
             if o.get("outcome") != "ok":
